@@ -70,7 +70,7 @@ def fault_load(cx, charset, fault):
     cx.check(default_in_force(cx, mido), 'charset-restored-after-load')
 
 
-BAD = ['negative', 'float', 'realtime', 'unencodable', 'none-time', 'bad-data']
+BAD = ['negative', 'float', 'realtime', 'unencodable', 'none-time', 'bad-data', 'unknown-charset']
 
 
 @harness(labels=['save-raised', 'charset-restored-after-save'])
@@ -98,6 +98,8 @@ def fault_save(cx, charset, n, ntracks):
                 elif bad == 'none-time':
                     m = mido.Message('note_on')
                     vars(m)['time'] = None
+                elif bad == 'unknown-charset':
+                    m = mido.MetaMessage('text', text='é', time=0)
                 else:
                     m = mido.Message('note_on')
                     vars(m)['note'] = 300
@@ -106,6 +108,12 @@ def fault_save(cx, charset, n, ntracks):
             tr.append(m)
         tracks.append(tr)
     mid = mido.MidiFile(type=1, ticks_per_beat=96, charset=charset, tracks=tracks)
+    if bad == 'unknown-charset':
+        mid.charset = 'utf8-typo'                    # a charset name no codec answers to
+        data = _valid_file(cx, mido, charset, text)
+        _, e0 = cx.raises(lambda: mido.MidiFile(file=smf.in_file(cx, data), charset='no-such-charset'), Exception,
+                          label='save-raised')
+        cx.check(default_in_force(cx, mido), 'charset-restored-after-save')
     _, exc = cx.raises(lambda: mid.save(file=smf.out_file(cx)), Exception, label='save-raised')
     cx.check(exc is not None, 'save-raised')
     cx.check(default_in_force(cx, mido), 'charset-restored-after-save')
@@ -153,7 +161,7 @@ BOUNDS = {
     'quick': '8 charsets x 3-6 texts encodable in each x 8 text-carrying meta types (delta symbolic): file bytes == text.encode(c), '
              'load gives the text back, charset restored, alternating calls with a second charset; load faults: truncation at a '
              'SYMBOLIC offset 0..len, one SYMBOLIC byte substituted at every offset, track bodies of <=2 arbitrary bytes, for 3 '
-             'charsets; save faults: the k-th message (k symbolic, 1-2 tracks) unstorable in 6 ways, for 3 charsets',
+             'charsets; save faults: the k-th message (k symbolic, 1-2 tracks) unstorable in 6 ways, or a charset name that no codec answers to, for 3 charsets',
     'thorough': 'load/save faults for all 8 charsets; track bodies of 3 arbitrary bytes',
 }
 OUTSIDE = 'text content and codec internals are C-level and concrete (menu); charsets beyond the menu'
